@@ -6,7 +6,7 @@ func extraRules() []*Rule {
 	out = append(out, rulesLocks()...)
 	out = append(out, rulesTables()...)
 	out = append(out, rulesStorage()...)
-	out = append(out, ruleLifecycle(), ruleHeartbeat(), ruleRecordOffset(), ruleFollowerLookup(), ruleOffsetOwner(), ruleSendLabel(), ruleVerifyRound(), ruleContactRefresh(), ruleHandlerDemote())
+	out = append(out, ruleLifecycle(), ruleHeartbeat(), ruleRecordOffset(), ruleFollowerLookup(), ruleOffsetOwner(), ruleSendLabel(), ruleVerifyRound(), ruleContactRefresh(), ruleHandlerDemote(), rulePrevoteToken())
 	return out
 }
 
@@ -40,6 +40,7 @@ func extraSpecs() []*PropertySpec {
 		{ID: "C16", Rules: []string{"CONTACT-REFRESH"}, Decided: "a voter in contact with the leader (any non-stale AppendEntries, also a rejected one) refreshes lastContact, which is what makes it ignore vote requests"},
 		{ID: "C16", Rules: []string{"HANDLER-DEMOTE"}, Decided: "a (pre)candidate that accepts a message from the leader of its own or a later term becomes a follower before it answers: otherwise its next election timeout counts as a won prevote and it raises its term unasked"},
 		{ID: "C02", Rules: []string{"HANDLER-DEMOTE"}, Decided: "a candidate that recognises the leader of its term stops campaigning in that term"},
+		{ID: "C16", Rules: []string{"PREVOTE-TOKEN"}, Decided: "a campaign raises the term only on the strength of a prevote won for this attempt (a token set by a prevote quorum and spent by the increment): a candidate whose election timed out asks again"},
 		{ID: "C10", Rules: []string{"SEND-LABEL"}, Decided: "a snapshot request is labelled with the metadata of the very file whose bytes it carries, not with the node's boundary"},
 		{ID: "C11", Rules: []string{"SEND-LABEL"}, Decided: "a snapshot request is labelled with the metadata of the very file whose bytes it carries"},
 		{ID: "C11", Rules: []string{"COMPACT-KEEP"}, Decided: "Compact keeps the boundary entry as placeholder plus the suffix, DiscardEntries leaves exactly the placeholder, LastIndex/LastTerm/NextIndex read the last element"},
